@@ -454,7 +454,19 @@ def check_e2e_followers(res, acc, tier, rng):
                     bare = head + tl + b"\n" + fol + FOLLOW_TAIL
                     paren = head + ind + b"(\n" + tl + b"\n" + ind + b")\n" + fol + FOLLOW_TAIL
                     cases.append((hn, f, bare, paren))
+                    if find == ind and text == FOLLOW_TEXTS[0]:
+                        # the same pair with CR LF and with CR line ends (a keyword alone on its line is then followed by CR)
+                        for nl in (b"\r\n", b"\r"):
+                            cases.append((hn, f, bare.replace(b"\n", nl), paren.replace(b"\n", nl)))
     files = lambda d: [("a.jst", d), ("inc.jst", b"GET /inc\n  200 any\n")]
+    # the LF document and its CR LF / CR spellings must agree as well (the first text, the indentation of the host)
+    for hn, head, ind in FOLLOW_HOSTS:
+        for f in FOLLOWERS:
+            fol = ind + f.replace(b"{I}", ind) + b"\n"
+            tl = b"\n".join((ind + b"  " + l) if l else l for l in FOLLOW_TEXTS[0].split(b"\n"))
+            lf = head + tl + b"\n" + fol + FOLLOW_TAIL
+            for nl in (b"\r\n", b"\r"):
+                cases.append((hn + "/line ends", f, lf, lf.replace(b"\n", nl)))
     docs = sorted({c[2] for c in cases} | {c[3] for c in cases})
     outs = dict(zip(docs, C.run_sharded("harness", "fn", [P.run_line("out=sha", files(d)) for d in docs])))
     res.count(len(docs))
